@@ -187,7 +187,7 @@ def scanIndex (s : Store) (mats : List Bytes) (since until_ : Option Int)
     (events : Option (List Bytes)) : Option (List Bytes) :=
   (encOpt since).bind fun sB =>
   (encOpt until_).bind fun uB =>
-  let addTime := match uB with | some u => [0] ++ u ++ [0] | none => []
+  let addTime := match uB with | some u => [0] ++ u ++ [1] | none => []
   let stop0 := mats.getLastD []
   let stop := match sB with | some sn => stop0 ++ [0] ++ sn | none => stop0
   some (scanMatches s ⟨sB, uB, stop, events⟩ addTime mats true)
@@ -248,17 +248,14 @@ def postSaveReplaceable (s : Store) (e : Event) : Option Store :=
   (scanIndex s [[4] ++ e.pubkey ++ [0] ++ kd] none (some e.createdAt) none).bind fun ids =>
   replaceLoop e dTag s ids
 
-/-- ids referenced by a kind-5 event; outer `none` = exception that aborts the transaction
-    (bad hex); IndexError (an `e` tag without value, an empty tag) ⇒ `ids = []` -/
+/-- `bytes_from_hex(tag[1])` of a tag -/
+def refOf (t : List Bytes) : Option Bytes := kvBytesFromHex (t.getD 1 [])
+
+/-- ids referenced by a kind-5 event: every `e` tag with a value that decodes as hex; malformed
+    references are ignored (after the `fix:`).  `none` = IndexError (`tag[0]` on an empty tag). -/
 def deletionRefs (tags : List (List Bytes)) : Option (List Bytes) :=
-  if tags.any (fun t => t.isEmpty || (t.head? == some eName && t.length < 2)) then
-    -- IndexError is raised lazily inside the generator: tags before it may already have
-    -- raised ValueError
-    let before := tags.takeWhile (fun t => !(t.isEmpty || (t.head? == some eName && t.length < 2)))
-    if (before.filter (·.head? == some eName)).all (fun t => (kvBytesFromHex (t.getD 1 [])).isSome)
-    then some [] else none
-  else
-    (tags.filter (·.head? == some eName)).mapM fun t => kvBytesFromHex (t.getD 1 [])
+  if tags.any (·.isEmpty) then none
+  else some ((tags.filter fun t => t.head? == some eName && t.length > 1).filterMap refOf)
 
 /-- the deletion loop of the kind-5 branch -/
 def deleteLoop (ids : List Bytes) (s : Store) : List Bytes → Option Store
